@@ -166,6 +166,15 @@ def entryKind (t : Thread) : QK :=
   | ["goci", _, j] => .goci j.toNat?
   | _ => .imm
 
+/-- a loop goroutine has been released from `run.exit` and has not arrived at `run.done`: it may already have cleared
+`running` (under stopLock) although the model applies that effect only when it arrives -/
+def loopExitInFlight (s : St) : Bool :=
+  s.threads.any fun u => u.pc == "run.exit" && u.inFlight && u.ctx != "exited"
+
+def markLoopExited (s : St) : St :=
+  { s with running := false,
+           threads := s.threads.map fun u => if u.pc == "run.exit" && u.inFlight then { u with ctx := "exited" } else u }
+
 /-- effects of the code between yield point `p` and the next yield point `q` that are applied on arrival at `q` -/
 def leave (s : St) (t : Thread) (p q : String) (job : Option Nat) (now : Nat) (obs : Snap) : M (St × Thread) := do
   match p with
@@ -233,7 +242,11 @@ def leave (s : St) (t : Thread) (p q : String) (job : Option Nat) (now : Nat) (o
     else pure ({ s with running := false }, t)
   | "run.done" => pure (s, t)
   | "stop.enter" =>
-    if s.running then do require (q == "stop.store") "Stop on a running loop must request the stop"; pure (s, t)
+    if s.running then
+      -- a loop goroutine released from run.exit clears `running` under stopLock before it reaches its next yield
+      -- point: a Stop that takes the lock after it sees a stopped loop although the model has not seen run.done yet
+      if q == "stop.exit" && loopExitInFlight s then pure (markLoopExited s, t)
+      else do require (q == "stop.store") "Stop on a running loop must request the stop"; pure (s, t)
     else do require (q == "stop.exit") "Stop on a stopped loop must return"; pure (s, t)
   | "stop.store" => do require (q == "stop.wake") "stop.store → stop.wake"; pure ({ s with canRun := false }, t)
   | "stop.wake" => do require (q == "stop.wait") "stop.wake → stop.wait"; pure (s, t)
@@ -253,7 +266,11 @@ def leave (s : St) (t : Thread) (p q : String) (job : Option Nat) (now : Nat) (o
     pure ({ s with quiet := true, inTerm := t.call.head? == some "term" }, t)
   | "snw.enter" =>
     if q == "snw.wake" then do require s.running "StopNoWait acts on a stopped loop"; pure ({ s with canRun := false }, t)
-    else do require (!s.running) "StopNoWait ignores a running loop"; pure (s, t)
+    else if s.running then do
+      -- (same hand-off as in Stop: the exiting loop goroutine got stopLock first)
+      require (loopExitInFlight s) "StopNoWait ignores a running loop"
+      pure (markLoopExited s, t)
+    else pure (s, t)
   | "snw.wake" => pure (s, t)
   | "term.enter" => do require (q == "stop.enter") "Terminate must call Stop first"; pure (s, t)
   | "term.flag" => do
